@@ -33,9 +33,11 @@ theorem encode_formats : Extracted.encodeFormats =
 
 theorem armor_lines : Extracted.armorLines = [lnBeginMsg, lnBeginSig, lnEndSig] := by decide
 
+/-- the literal prefix/suffix tests of `load`, in source order -/
 theorem load_prefix_tests : Extracted.loadPrefixTests =
-    [([115, 116, 97, 114, 116, 115, 119, 105, 116, 104], dashes5),
-     ([101, 110, 100, 115, 119, 105, 116, 104], dashes5),
-     ([115, 116, 97, 114, 116, 115, 119, 105, 116, 104], [45, 32])] := by decide
+    [([115, 116, 97, 114, 116, 115, 119, 105, 116, 104], sNotDashEscaped),
+     ([115, 116, 97, 114, 116, 115, 119, 105, 116, 104], [45, 32]),
+     ([115, 116, 97, 114, 116, 115, 119, 105, 116, 104], dashes5),
+     ([101, 110, 100, 115, 119, 105, 116, 104], dashes5)] := by decide
 
 end Gemato.Bridge
